@@ -63,7 +63,8 @@ def one(site):
     rc, log = run("/venv/bin/python -m pytest -q -x -p no:cacheprovider tests 2>&1 | tail -1", env=env, cwd=src)
     res = {"file": fn, "class": cls, "property": name, "tests": log.strip().splitlines()[-1] if log.strip() else "", "checks": {}}
     res["tests_pass"] = "126 passed" in res["tests"]
-    for pid in CHECKS[fn]:
+    only = os.environ.get("CACHEMUT_CHECKS")
+    for pid in (only.split(",") if only else CHECKS[fn]):
         env2 = dict(os.environ, VERIF_GEOMETER_SRC=src, VERIF_OUT_DIR=os.path.join(SCRATCH, "out-" + mid), VERIF_JOBS="4")
         rc, log = run(f"{HERE}/check {pid} --tier quick", env=env2, cwd=HERE)
         b = [l.strip()[:140] for l in log.splitlines() if l.startswith("  bucket")][:1]
@@ -82,7 +83,10 @@ def main():
     out = json.load(open(path)) if os.path.exists(path) else {}
     with ThreadPoolExecutor(4) as ex:
         for mid, res in ex.map(one, todo):
-            out[mid] = res
+            if mid in out and os.environ.get("CACHEMUT_CHECKS"):
+                out[mid]["checks"].update(res["checks"])  # re-run of selected checks: merge
+            else:
+                out[mid] = res
             json.dump(out, open(path, "w"), indent=1)
     shutil.rmtree(SCRATCH, ignore_errors=True)
     alive = [k for k, v in out.items() if v["tests_pass"] and not any(c["killed"] for c in v["checks"].values())]
